@@ -7,6 +7,9 @@ mod c18;
 mod c14;
 mod c20;
 mod c02;
+mod c04;
+mod ssk;
+mod dens;
 use util::*;
 
 fn main() {
@@ -16,6 +19,11 @@ fn main() {
         std::process::exit(2);
     }
     let cmd = args[1].as_str();
+    if cmd == "child-dens" {
+        std::panic::set_hook(Box::new(|_| {}));
+        dens::child(&args[2..]);
+        return;
+    }
     if cmd == "child-sig" {
         c18::child(&args[2..]);
         return;
@@ -56,6 +64,9 @@ fn main() {
                 "C14" => c14::corr(&mut ctx),
                 "C20" => c20::corr(&mut ctx),
                 "C02" => c02::corr(&mut ctx),
+                "C04" => c04::corr(&mut ctx),
+                "DENS" => dens::corr(&mut ctx),
+                "SSK" => { ssk::corr_sets(&mut ctx); ssk::corr_merge(&mut ctx) }
                 "C19sweep" => c19::sweep(&mut ctx),
                 _ => {
                     eprintln!("unknown property {}", prop);
